@@ -154,6 +154,9 @@ func RunPOR(strat Strategy, maxSteps int, main func()) *Result {
 
 func run(strat Strategy, maxSteps int, por bool, main func()) *Result {
 	s := &sched{strat: strat, yield: make(chan *g), res: &Result{}, maxSteps: maxSteps, por: por}
+	for _, c := range globals {
+		c.buf, c.closed = nil, false
+	}
 	cur = s
 	defer func() { cur = nil }()
 	s.ready = append(s.ready, s.newG("main", main))
@@ -585,9 +588,17 @@ type Chan[T any] struct{ c core }
 // Make creates a channel; logged (not a scheduling point: it is local to the caller).
 func Make[T any](name string, capacity int) *Chan[T] {
 	ch := &Chan[T]{c: core{name: name, cap: capacity}}
+	if cur == nil {
+		// made by a package-level initialiser of the rewritten code (a channel shared by all calls): it exists before
+		// any run and is emptied / reopened at the start of every run
+		globals = append(globals, &ch.c)
+		return ch
+	}
 	logNow(Event{Kind: "make", Ch: name, Val: capacity})
 	return ch
 }
+
+var globals []*core
 
 // SetTag sets the integer that represents this channel when it is sent over another channel.
 func (ch *Chan[T]) SetTag(t int) *Chan[T] { ch.c.tag = t; return ch }
